@@ -469,6 +469,8 @@ pub fn sign<const N: usize>(m: &[u8], sk: &SecretKey<N>) -> Signature<N> {
     // hands the same buffered bytes - hence the same salt - to the parent and
     // to the child.
     let mut salt_rng = OsRng;
+    #[cfg(falcon_rust_verif)]
+    let mut salt_rng = crate::verif_hooks::ambient_entropy(salt_rng);
     salt_rng.fill_bytes(&mut r);
 
     let params = FalconVariant::from_n(N).parameters();
